@@ -146,6 +146,7 @@ type facts struct {
 	busyPages   []int    // the pages that answered Busy
 	ref         int      // the TXID of the reference image the step is compared with
 	badPages    []int    // (symptom side) the pages that differ or read short; explained per page by the hydration predicates
+	local       bool     // (observation) hydration-enabled view and no replica fetch during the comparison: the index was not consulted
 }
 
 type fileID struct {
@@ -197,6 +198,9 @@ type harness struct {
 	sqlv   *view
 	cap    *capVFS
 	capC   *viewClient
+	// what the history says never reached a persistent hydrated copy; the copy
+	// outlives the view, the next Open that resumes it inherits the ranges
+	persistMissed map[string][]missedRange
 	capH   *hydHandler
 	vfsNm  string
 
@@ -997,6 +1001,10 @@ func (h *harness) classify(v *view, fx facts, generic string) (string, string) {
 	if key, why := h.hydClassify(v, fx); key != "" {
 		return key, why
 	}
+	if fx.local || v.hw.serving() {
+		// the reads did not go through the index: its predicates explain nothing here
+		return generic, fx.desc
+	}
 	if generic == keyRead && fx.allBusy {
 		if why := h.cursorSeedingExplains(v, fx.busyPages); why != "" {
 			return keyRetention, why + "; files this view took index entries from that retention deleted: " + h.deletedFile(v) + "; " + fx.desc
@@ -1223,6 +1231,10 @@ func (h *harness) compareBytes(v *view, fx facts, ref []byte, what string) bool 
 		}
 		parts = append(parts, fmt.Sprintf("ReadAt failed for page(s) inside the database: %v", rerr))
 	}
+	if v.client != nil && v.hw != nil && v.client.opens.Load() == opens0 && npages > h.cachePages() {
+		fx.local = true
+		parts = append(parts, "no replica fetch during this comparison: every read was served from the hydrated copy")
+	}
 	h.violate(v, fx, generic, "%s", strings.Join(parts, "; "))
 	return false
 }
@@ -1387,6 +1399,12 @@ func (h *harness) closeView(pv **view) {
 	if v.gated { // Close waits for the hydration goroutine
 		v.gated = false
 		close(v.hw.release)
+	}
+	if v.hw != nil && h.s.Hyd == "persist" {
+		if h.persistMissed == nil {
+			h.persistMissed = map[string][]missedRange{}
+		}
+		h.persistMissed[v.label] = v.missed
 	}
 	if v.conn != nil {
 		_ = v.conn.Close()
